@@ -40,6 +40,14 @@ theorem get_setItem_same_dict (kvs : List (String × PyVal)) (k : String) (v : P
 theorem get_tag (k : Nat) (it : PyVal) : (tag k it).get "policy_index" = .int k := by
   cases it <;> simp [tag, Py.dictCopy, get_setItem_same_dict]
 
+/-- the Bool-valued helper model the evaluators use is the generic one at the model helpers -/
+theorem firstApplicableUnreachable_G (o : Oracle) (e l : PyVal) :
+    PyVal.bool (firstApplicableUnreachable o e l) = firstApplicableUnreachableG actions (fun a b => .bool (resourceCovers o a b)) e l := by
+  simp only [firstApplicableUnreachable, firstApplicableUnreachableG]
+  split
+  · rfl
+  · split <;> rfl
+
 /-! ### the default algorithm -/
 
 theorem lintAlgorithm_default (o : Oracle) (policy : PyVal) (h : (policy.get "algorithm").truthy = false) :
